@@ -86,6 +86,7 @@ type step struct {
 	Shards []int    `json:"shards,omitempty"` // cachedelete
 	Faults [][]interface{} `json:"faults,omitempty"` // faults: [kind, at] plans for the vfault file layer
 	Steps [][]step `json:"steps,omitempty"` // par: groups run concurrently, each group sequential
+	Must  bool     `json:"must,omitempty"`  // cachefiles: every shard file must exist now (recorded for the monitor)
 	Kills []killPlan `json:"kills,omitempty"` // kills: machine kills at RPC boundaries (C02), counted from this step on
 }
 
@@ -735,7 +736,7 @@ func (r *runner) doStep(ctx context.Context, st *step, lane int) {
 		if len(lg) > 40 {
 			lg = lg[len(lg)-40:]
 		}
-		r.emit(vtr.Rec{"do": "cachefiles", "lane": lane, "prefix": st.Prefix, "n": st.N, "files": files, "fileops": lg})
+		r.emit(vtr.Rec{"do": "cachefiles", "lane": lane, "prefix": st.Prefix, "n": st.N, "files": files, "fileops": lg, "must": st.Must})
 	case "par":
 		r.emit(vtr.Rec{"do": "parbegin", "lane": lane, "n": len(st.Steps)})
 		var wg sync.WaitGroup
